@@ -1041,6 +1041,11 @@ class Twin:
             elif pre == "shorter":
                 with open(path, "wb") as f:
                     f.write(b"Q")
+            elif pre in ("same-lf", "same-cr"):
+                # the very records that are about to be saved, but with other line terminators
+                sep = b"\n" if pre == "same-lf" else b"\r"
+                with open(path, "wb") as f:
+                    f.write(sep.join(r.encode("latin_1", "replace") for r in list(wl)))
             elif pre == "absent" and os.path.exists(path):
                 os.unlink(path)
         try:
